@@ -25,7 +25,8 @@ RULE = ("job = seed -> (client settings, server settings) from the restriction "
         "loadable.  distinct = digest(settings pair, key); non-trivial = the "
         "predicate held (connect clause exercised)"
         " Session cache / ticket keys / a shared external PSK are drawn next to the lattice, and a second connection between the same settings offers the first one's session: it must connect as well."
-        ' Out-of-domain values must make validate() raise; SRP flavour with the client key-size window on / next to the size of the server group.')
+        ' Out-of-domain values must make validate() raise; SRP flavour with the client key-size window on / next to the size of the server group.'
+        ' PSK options include several identities with explicit and default hashes in either order; SNI on/off.')
 LEVEL_TEXT = ("Seeded exploration over settings pairs.  The connect clause "
               "is judged by a deliberately conservative predicate (says "
               "'don't know' whenever the documented semantics leave room), "
@@ -180,10 +181,22 @@ def run(job, streams=None):
     # session / ticket / PSK options next to the lattice: they add ways to
     # connect, they must never take one away
     if ch.draw(4, "opt.psk") == 1:
-        pk = [list(scen.PSK_HEX) + [["sha256", "sha384"][ch.draw(2,
-                                                                "opt.pskh")]]]
-        c["pskConfigs"] = pk
-        s["pskConfigs"] = [list(pk[0])]
+        kh = ch.draw(5, "opt.pskh")
+        other = ["6f74686572", "5a" * 24, "sha384"]
+        if kh <= 1:
+            pk = [list(scen.PSK_HEX) + [["sha256", "sha384"][kh]]]
+            c["pskConfigs"] = pk
+            s["pskConfigs"] = [list(pk[0])]
+        elif kh == 2:
+            # several identities with different (explicit / default) hashes
+            c["pskConfigs"] = [list(other), list(scen.PSK_HEX)]
+            s["pskConfigs"] = [list(scen.PSK_HEX)]
+        elif kh == 3:
+            c["pskConfigs"] = [list(scen.PSK_HEX), list(other)]
+            s["pskConfigs"] = [list(other)]
+        else:
+            c["pskConfigs"] = [list(other), list(scen.PSK_HEX)]
+            s["pskConfigs"] = [list(scen.PSK_HEX), list(other)]
     if ch.draw(3, "opt.tick") == 1:
         s["ticketKeys"] = ["77" * 32]
     second = ch.draw(3, "opt.second") != 2
@@ -198,6 +211,8 @@ def run(job, streams=None):
     sc = {"cset": c, "sset": s, "flavour": "cert", "skey": skey}
     if ch.draw(4, "alpn") == 1:
         sc["alpn_c"] = ["h2", "http/1.1"]
+    if ch.draw(2, "sni") == 1:
+        sc["sni"] = "server.example"
     viol = []
     probes = {}
     ctx = json.dumps(sc, sort_keys=True)
